@@ -38,6 +38,7 @@ fn visit(v: &Visit, st: &mut Stats) -> CaseResult {
         _ => "ongoing",
     };
     st.class(cls);
+    st.class_if(!legal.is_empty() && legal.iter().all(|m| v.pos.is_castle(*m)), "castling-is-the-only-legal-move");
     if v.pos.ep.is_some() {
         let pseudo_ep = v.pos.pseudo_moves().iter().any(|m| v.pos.is_ep_capture(*m));
         st.class_if(pseudo_ep && legal.is_empty() && !in_check, "stalemate-with-illegal-ep-capture");
@@ -71,7 +72,7 @@ pub fn run(ctx: &Ctx) -> Report {
     let mut rep = Report::new(ctx);
     rep.rule = "Every position along generated histories (extra weight on mate/stalemate-net motifs and on half-move clocks 98..100 via clock setters and constructed clocks); status() is compared with: no legal move & check -> Won; no legal move & no check -> Drawn; legal move & clock >= 100 -> Drawn; else Ongoing (legal moves and check from the reference model). The null-move successor of every visited board is judged as well (with motifs where, after the pass, the only movable enemy pieces are front pieces of a battery aimed at the passer's king). Non-trivial = status other than Ongoing, or clock >= 99; distinct by (FEN hash, clock).".into();
     rep.assumptions = vec!["reference legal_moves()/in_check()".into()];
-    rep.required_classes = vec!["checkmate", "stalemate", "fifty-move-draw", "checkmate-with-clock-100", "clock-99-ongoing", "in-check-ongoing", "after-null:no-legal-move", "after-null:only-battery-front-pieces-move", "stalemate-with-illegal-ep-capture", "ep-capture-is-the-only-legal-move"];
+    rep.required_classes = vec!["checkmate", "stalemate", "fifty-move-draw", "checkmate-with-clock-100", "clock-99-ongoing", "in-check-ongoing", "after-null:no-legal-move", "after-null:only-battery-front-pieces-move", "stalemate-with-illegal-ep-capture", "ep-capture-is-the-only-legal-move", "castling-is-the-only-legal-move"];
     let cases = ctx.tier.scale(200_000, 25);
     rep.add(positions(ctx, "walk", cases, (1, 3, 8), 40, visit));
     rep
